@@ -255,3 +255,32 @@ Proof.
   - intros NL. assert (Hin : 1000%positive ∈ lib_live exk_after) by (apply (bool_decide_unpack _); vm_compute; exact I).
     apply NL in Hin. revert Hin. apply (bool_decide_unpack _). vm_compute. exact I.
 Qed.
+
+(** ** outside [nofail]: an allocation failure inside cJSON_AddItemToObject (DESIGN 11.6, reproduced in the model) *)
+(** the run of [exh_heap] with the FIFTH allocation request refused: that request is the copy of the name "c" made
+    by cJSON_AddItemToObject(target, "c", replacement) for the member that was detached, patched and is now to be
+    put back.  merge_patch ignores the refusal. *)
+Definition exf_oracle : nat -> bool := fun k => Nat.eqb k 4.
+Definition exf_run : out (ptr * heap) :=
+  MergeHeapDefs.cJSONUtils_MergePatchCaseSensitive exf_oracle (Some 1%positive) (Some 10%positive) exh_heap.
+Definition exf_after : heap := out_heap exf_run exh_heap.
+Definition exf_result : Tree.node :=
+  Tree.Node c_cJSON_Object None 0 dzero None [Tree.Node c_cJSON_String (Some [103]) 0 dzero (Some [102]) []].
+
+Lemma alloc_failure_observed :
+  (* the call "succeeds": it returns the target, a healthy tree — {"f":"g"}: the member "c" is gone … *)
+  out_val exf_run = Some (Some 1%positive) /\
+  out_val (CoreOps.dump_node 50 (Some 1%positive) exf_after) = Some (Some (exf_result, true)) /\
+  Rfc7396.doc_eq exf_result (Rfc7396.merge (Some (reify exh_St exh_target)) (reify exh_St exh_patch)) = false /\
+  (* … and the patched member (node 3 with its old key 103 and the new "e":[1] below it) is a detached,
+     unreachable, live library tree *)
+  h_lnk exf_after !! 3%positive = Some (None, None) /\
+  out_val (CoreOps.dump_node 50 (Some 3%positive) exf_after) =
+    Some (Some (Tree.Node c_cJSON_Object None 0 dzero (Some [99])
+                  [Tree.Node c_cJSON_Array None 0 dzero (Some [101]) [exh_num1]], true)) /\
+  forallb (fun b => bool_decide (b ∈ lib_live exf_after)) [3; 103; 1000; 1002; 1003]%positive = true.
+Proof. split_and!; vm_compute; reflexivity. Qed.
+Lemma exf_run_is :
+  exf_run = MergeHeapDefs.cJSONUtils_MergePatchCaseSensitive exf_oracle (Some 1%positive) (Some 10%positive) exh_heap /\
+  exf_after = out_heap exf_run exh_heap /\ exf_oracle = (fun k => Nat.eqb k 4).
+Proof. unfold exf_after, exf_run, exf_oracle. split_and!; reflexivity. Qed.
